@@ -345,4 +345,38 @@ w("multi/everything.tsx", thdr + "\n".join([
     "  </div></KeepAlive>));",
     "const dflt = {};",
 ]), '{"resolveType":true,"optimize":true,"mergeProps":false,"customElementPatterns":["^x-"]}')
+
+# ---- E. "combo": a pairwise covering set over (tag kind, attribute set, directive, children kind, position in the
+# program). Every pair of values of two different factors occurs in at least one module; the greedy construction is
+# seeded and the result is checked in, so the set is fixed.
+import itertools, random as _random
+F_tag = ["div", "input", "Comp", "A.b", "x-foo", "KeepAlive", "foo-bar", "svg"]
+F_attrs = ["", 'id="i"', "id={i}", "{...sp}", 'class="c" style={s}', "onClick={h}", "key={k} ref={r}", "a={1} {...sp} b={b}", "onUpdate:modelValue={u} modelValue={m}", 'a=<b/> c={<></>}']
+F_dir = ["", "v-show={s}", "v-model={m}", "v-model:arg_mod={m}", "v-html={h}", "v-custom:arg_m1_m2={c}", "v-models={[[p, 'p'], [q, 'q', ['m']]]}", "v-slots={sl}", "v-text='t'"]
+F_kids = ["", "text", "{x}", "{f()}", "<b />", "<B>{y}</B>", "{{ default: () => 1, named }}", "{() => 1}", "t {x} <i>{y}</i>", "{...rest}", "<></>", "{cond ? <a /> : null}"]
+F_pos = ["const v = %s;", "function f() { return %s; }", "const g = () => %s;", "class K { m() { return %s; } }", "export default %s;", "let w; w = %s;", "const o = { p: %s, q: [%s] };", "h(%s, <Outer a=%s>{%s}</Outer>);"]
+factors = [F_tag, F_attrs, F_dir, F_kids, F_pos]
+def elem(t, a, d, k):
+    parts = " ".join(x for x in (a, d) if x)
+    open_ = f"<{t}{' ' + parts if parts else ''}"
+    return f"{open_} />" if k == "" else f"{open_}>{k}</{t}>"
+need = set()
+for (i, fi), (j, fj) in itertools.combinations(list(enumerate(factors)), 2):
+    for a in range(len(fi)):
+        for b in range(len(fj)):
+            need.add((i, a, j, b))
+rnd = _random.Random(20261001)
+rows = []
+while need:
+    best, gain = None, -1
+    for _ in range(300):
+        r = tuple(rnd.randrange(len(f)) for f in factors)
+        g = sum(1 for (i, a, j, b) in need if r[i] == a and r[j] == b)
+        if g > gain:
+            best, gain = r, g
+    rows.append(best)
+    need = {(i, a, j, b) for (i, a, j, b) in need if not (best[i] == a and best[j] == b)}
+for n, r in enumerate(rows):
+    e = elem(F_tag[r[0]], F_attrs[r[1]], F_dir[r[2]], F_kids[r[3]])
+    w(f"combo/c{n:03d}.jsx", "import { KeepAlive } from 'vue';\n" + F_pos[r[4]].replace("%s", e))
 print("generated under", os.path.normpath(root))
